@@ -211,7 +211,19 @@ fn check_branch<S: Source>(
     let mut boxed = false;
     let mut well_formed = false;
     let mut multi_values_kept_single = false;
+    // `if a then a else e` with a pure, single-valued `a` may also become `a or e`
+    let mut merged_pure_operand = false;
     match &converted {
+        Expression::Binary(or)
+            if same
+                && r_shape == 0
+                && !r.effects
+                && or.operator() == BinaryOperator::Or
+                && !matches!(or.left(), Expression::Binary(_)) =>
+        {
+            merged_pure_operand =
+                identify(or.left(), shapes) == (0, false) && identify(or.right(), shapes) == (2, false);
+        }
         Expression::Binary(or) if or.operator() == BinaryOperator::Or => {
             if let Expression::Binary(and) = or.left() {
                 plain = and.operator() == BinaryOperator::And;
@@ -247,8 +259,8 @@ fn check_branch<S: Source>(
     }
     observe!(plain || result_shape != 0 && result_shape != 255, "and/or form chosen");
     observe!(boxed, "boxed form chosen");
-    claim!(s, plain || boxed, "an if-expression branch becomes `c and r or e` or `(c and {r} or {e})[1]`");
-    claim!(s, well_formed, "the three operands appear once each, in evaluation order, in their own positions");
+    claim!(s, plain || boxed || merged_pure_operand, "an if-expression branch becomes `c and r or e` or `(c and {r} or {e})[1]` (or `a or e` when condition and result are the same effect-free operand)");
+    claim!(s, well_formed || merged_pure_operand, "the three operands appear once each, in evaluation order, in their own positions");
     if plain {
         claim!(s, r.operand.actual.truthy(), "`c and r or e` is chosen only when the result `r` cannot be false or nil");
         claim!(s, r.operand.known, "`c and r or e` is chosen only when the evaluator knows the value of `r`");
